@@ -41,6 +41,9 @@ def getattr(I, st, v, name):
     M = _m()
     from .symex import FrozenList, FrozenDict, FrozenNd
 
+    if isinstance(v, SliceVal) and name in ("start", "stop", "step"):
+        yield st, {"start": v.lo, "stop": v.hi, "step": v.step}[name]
+        return
     if isinstance(v, HObj):
         if heap_is_obj(I, v.term) and not I.spec_mode:
             notnone = v.term != heap_none(I)
@@ -70,7 +73,9 @@ def getattr(I, st, v, name):
                 yield st, e.cls
                 return
             if name == "__dict__":
-                yield st, ObjDict(v)  # live view of the instance attributes
+                d = DictE()
+                d.owner = v
+                yield st, st.alloc(d)
                 return
             m, where = I.class_lookup(e.cls, name)
             from .values import PropertyVal
@@ -536,6 +541,17 @@ def setattr(I, st, obj, name, v, raw=False):
             if isinstance(g, FuncVal) and "property" in g.decorators():
                 yield st, exc("AttributeError", "can't set attribute '%s'" % name)
                 return
+        if name == "__dict__":
+            # obj.__dict__ = d: the instance attributes become exactly the items of d, and d stays the live __dict__
+            if not (isinstance(v, Ref) and st.get(v).kind == "dict") or st.get(v).owner is not None:
+                raise Unsupported("assignment of a non-dict to __dict__")
+            d = st.get(v)
+            if not all(isinstance(kk, str) for kk in d.items):
+                raise Unsupported("__dict__ with non-string keys")
+            e.attrs = dict(d.items)
+            d.owner = obj
+            yield st, None
+            return
         e.attrs[name] = v
         yield st, None
         return
@@ -2467,7 +2483,11 @@ def make_ext_modules(I):
         if isinstance(v, Ref):
             e = st.get(v)
             if e.kind != "obj":
-                yield st, st.alloc(e.copy())
+                c = e.copy()
+                if e.kind == "dict":
+                    c.owner = None  # a copy of obj.__dict__ is a plain dict, not the live view
+                    c.items = dict(e.items)
+                yield st, st.alloc(c)
                 return
             m, _ = I.class_lookup(e.cls, "__copy__")
             if m is not None:
@@ -2523,7 +2543,10 @@ def make_ext_modules(I):
                     else:
                         raise Unsupported("deepcopy: __getstate__ result is not a dict")
                     return new
-                new = S[0].alloc(e.copy())
+                c = e.copy()
+                if e.kind == "dict":
+                    c.owner = None  # a copy of obj.__dict__ is a plain dict, not the live view
+                new = S[0].alloc(c)
                 memo[v.id] = new
                 if e.kind in ("list", "deque"):
                     items = [dc(x) for x in e.items]
